@@ -344,8 +344,8 @@ func c10Actions(r *sandbox.Repo) [][]string {
 func runC10(c *core.Ctx) {
 	mons := Registry["C10"].Mons
 	// ---- explicit state-space exploration of the real binary
-	maxDepth := c.Pick(2, 4)
-	maxTransitions := c.Pick(4000, 160000)
+	maxDepth := c.Pick(3, 4)
+	maxTransitions := c.Pick(25000, 200000)
 	var mu sync.Mutex
 	seen := map[string]bool{}
 	var frontier []c10Node
@@ -433,7 +433,7 @@ func runC10(c *core.Ctx) {
 	c.Extra["name_alphabet"] = c10Names
 	c.CountN("C10.bfs-transitions", int64(transitions))
 	// ---- random walks
-	n := c.Pick(60, 1500)
+	n := c.Pick(300, 2500)
 	c.RunHistories(n, mons, func(w *core.World) {
 		wts := map[string]int{
 			"branch-create": 14, "branch-delete": 10, "branch-rename": 10, "branch-list": 6,
@@ -563,7 +563,7 @@ func (C14Mon) After(w *core.World, st *core.Step) {
 }
 
 func runC14(c *core.Ctx) {
-	n := c.Pick(110, 1500)
+	n := c.Pick(400, 2500)
 	c.RunHistories(n, Registry["C14"].Mons, func(w *core.World) {
 		wts := map[string]int{
 			"edit-new": 6, "edit-mod": 8, "edit-rm": 2, "add": 8, "rm": 1, "restore-staged": 2,
@@ -790,7 +790,7 @@ var c20Names = []string{"Alice", "Alice B", "A=B", "a=b=c", "[bot]", "#1 dev", "
 var c20Emails = []string{"a@example.com", "first.last@sub.example.org", "x_y+tag@a-b.co", "u@d.io"}
 
 func runC20(c *core.Ctx) {
-	n := c.Pick(130, 3000)
+	n := c.Pick(500, 4000)
 	c.RunHistories(n, Registry["C20"].Mons, func(w *core.World) {
 		k := NewWalker(w, gen.NameOpts{MaxDepth: 1, N: 3}, nil)
 		w.Goit("init")
